@@ -215,6 +215,9 @@ Proof.
   - (* ReadCancel *) break_step E; apply (Inv_frame cap tr s); auto.
   - (* Told *) break_step E; apply (Inv_frame cap tr s'); auto.
   - (* ApiTold *) break_step E; apply (Inv_frame cap tr s'); auto.
+  - (* Disable *) break_step E; apply (Inv_frame cap tr s); auto.
+  - (* Enable *) break_step E; apply (Inv_frame cap tr s); auto.
+  - (* Discard *) discriminate E.
 Qed.
 
 Theorem Inv_run cap tr : forall s, run cap init tr = Some s -> Inv cap tr s.
